@@ -428,12 +428,14 @@ def setup():
     env = goenv()
     gosum = os.path.join(HARNESS, "go.sum")
     shutil.copy(os.path.join(GOROOT_PKG, "go.sum"), gosum)
-    r = subprocess.run(["go", "build", "0chain.net/...", "./..."], cwd=HARNESS, env=env)
-    if r.returncode != 0:
-        return r.returncode
     # warm the test-variant build cache (cgo rocksdb, bls) with one cheap check binary per flavour
     with tempfile.TemporaryDirectory() as wd:
         overlay = build_overlay(wd, HARNESS)
+        # the harness libraries (sim*, vstate) use the read-only Verif* shims that
+        # only exist through the overlay, so everything is built with it
+        r = subprocess.run(["go", "build", "-overlay", overlay, "0chain.net/...", "./..."], cwd=HARNESS, env=env)
+        if r.returncode != 0:
+            return r.returncode
         pkgs = sorted({p["pkg"] for c in CHECKS.values() for p in c["parts"] if not p.get("race")})
         r = subprocess.run(["go", "test", "-vet=off", "-overlay", overlay, "-run", "^$", "-count=1"] + pkgs,
                            cwd=HARNESS, env=env)
